@@ -108,11 +108,13 @@ Section ExecArgs.
     destruct Hrev as (y & ry & Ery).
     exists (x :: ar), x, y. split; [reflexivity|]. split; [reflexivity|].
     split; [rewrite Ery; reflexivity|].
-    unfold step_seq. rewrite Hk, Hd. unfold expand_macro. rewrite Hm.
-    unfold expand_arguments. rewrite Ha.
     assert (Hss : skip_space (o :: a ++ c :: l) = o :: a ++ c :: l).
     { cbn [skip_space]. unfold buf_is_space. rewrite Ok_. reflexivity. }
-    cbn [collect_args]. unfold one_arg. rewrite Hss, Hss. rewrite O2.
+    assert (Hsc : skip_ctl (o :: a ++ c :: l) = o :: a ++ c :: l).
+    { cbn [skip_ctl]. unfold buf_is_space. rewrite Ok_. reflexivity. }
+    unfold step_seq. rewrite Hk, Hd. unfold expand_macro. rewrite Hm, Hsc.
+    unfold expand_arguments. rewrite Ha.
+    cbn [collect_args]. unfold one_arg. rewrite ?Hss. rewrite O2.
     unfold arg_buffer, arg_buffer_c. rewrite Hss. rewrite Ok_.
     assert (Eend : str_eqb s_rbrace s_rbrace = true) by reflexivity.
     rewrite Eend, O1. cbn [negb andb].
@@ -184,20 +186,21 @@ Section ExecArgs.
   Qed.
 
   Lemma skip_space_bcl ms l : bcl ms l ->
-    exists pre, l = pre ++ skip_space l /\ Forall (ucls ms) pre /\
-                Forall (fun t => buf_is_space t = true) pre /\ bcl ms (skip_space l).
+    exists pre, l = pre ++ skip_ctl l /\ Forall (ucls ms) pre /\
+                Forall (fun t => buf_is_space t = true) pre /\ bcl ms (skip_ctl l).
   Proof.
     induction 1 as [|t l Ht Hl IH|m o a c l Hm Ho Hc Hb Ha _ Hl _].
     - exists []. repeat split; constructor.
-    - cbn [skip_space]. destruct (buf_is_space t) eqn:E.
-      + destruct IH as (pre & E1 & F1 & F2 & B). exists (t :: pre).
+    - cbn [skip_ctl]. destruct (buf_is_space t && negb (is_lang t)) eqn:E.
+      + apply andb_true_iff in E. destruct E as [E _].
+        destruct IH as (pre & E1 & F1 & F2 & B). exists (t :: pre).
         split; [cbn [app]; f_equal; exact E1|].
         split; [constructor; assumption|]. split; [constructor; assumption | exact B].
       + exists []. split; [reflexivity|]. split; [constructor|]. split; [constructor|].
         constructor; assumption.
     - assert (E : buf_is_space m = false).
       { destruct Hm as (Hk & _). unfold buf_is_space. rewrite Hk. reflexivity. }
-      cbn [skip_space]. rewrite E. exists []. split; [reflexivity|].
+      cbn [skip_ctl]. rewrite E. cbn [andb]. exists []. split; [reflexivity|].
       split; [constructor|]. split; [constructor|]. apply b_pass; assumption.
   Qed.
 
@@ -276,7 +279,7 @@ Section ExecArgs.
           as (st1 & Es & Eu1 & Em1).
         rewrite Es in H.
         destruct (skip_space_bcl _ _ Hb) as (pre & Eb & Hpre' & Hpre & Hrest).
-        assert (Hcl2 : bcl (macros st1) (ActionT (pos t) :: skip_space b)).
+        assert (Hcl2 : bcl (macros st1) (ActionT (pos t) :: skip_ctl b)).
         { rewrite Em1. constructor; [apply u_action; [left|]; reflexivity | exact Hrest]. }
         destruct (IH _ _ _ _ Hcl2 H) as (st' & ts & out & Er & Ep & Eu & Em & En & Et & Ef).
         destruct (skipped_harmless T Hsp _ _ Hpre' Hpre) as [Hn0 Hp0].
@@ -295,13 +298,13 @@ Section ExecArgs.
         assert (Hns : tk t <> KSpecial) by (rewrite Hk; discriminate).
         exists st', ts, out. split; [exact Er|]. split; [exact Ep|].
         split; [|split; [congruence|split; [|split; [|exact Ef]]]].
-        * rewrite Eu, Em1. change (ActionT (pos t) :: skip_space b)
-            with ([ActionT (pos t)] ++ skip_space b).
+        * rewrite Eu, Em1. change (ActionT (pos t) :: skip_ctl b)
+            with ([ActionT (pos t)] ++ skip_ctl b).
           change (t :: b) with ([t] ++ b). rewrite !unames_app.
           rewrite (unames_ucls_unknown _ _ Hk Hm). cbn [app fold_left].
           rewrite Eu1. f_equal. rewrite Eb at 2. rewrite unames_app, Hun0. reflexivity.
         * rewrite En.
-          change (ActionT (pos t) :: skip_space b) with ([ActionT (pos t)] ++ skip_space b).
+          change (ActionT (pos t) :: skip_ctl b) with ([ActionT (pos t)] ++ skip_ctl b).
           change (t :: b) with ([t] ++ b). rewrite !rtoks_app, (Rother Hns).
           rewrite Eb at 2. rewrite rtoks_app, Hr0, !plains_app, !nst_app.
           unfold ExecUnk.plains in Hp0 |- *. rewrite Hp0.
@@ -309,7 +312,7 @@ Section ExecArgs.
           assert (P2 : filter pk [t] = []) by (cbn [filter]; unfold ExecUnk.pk; rewrite Hk; reflexivity).
           rewrite P1, P2. reflexivity.
         * rewrite Et.
-          change (ActionT (pos t) :: skip_space b) with ([ActionT (pos t)] ++ skip_space b).
+          change (ActionT (pos t) :: skip_ctl b) with ([ActionT (pos t)] ++ skip_ctl b).
           change (t :: b) with ([t] ++ b). rewrite !rtoks_app, (Rother Hns).
           rewrite Eb at 2. rewrite rtoks_app, Hr0, !texts_app, Htx0.
           assert (X1 : texts (rtoks [ActionT (pos t)]) = []) by reflexivity.
@@ -450,9 +453,10 @@ Section ExecArgs.
   Definition mu (l : list tok) : nat := fold_right (fun t n => (wt t + n)%nat) 0%nat l.
   Lemma mu_app a b : mu (a ++ b) = (mu a + mu b)%nat.
   Proof. induction a as [|x a IH]; simpl; [reflexivity|]. rewrite IH. lia. Qed.
-  Lemma mu_skip b : (mu (skip_space b) <= mu b)%nat.
+  Lemma mu_skip b : (mu (skip_ctl b) <= mu b)%nat.
   Proof.
-    induction b as [|t b IH]; simpl; [lia|]. destruct (buf_is_space t); simpl; lia.
+    induction b as [|t b IH]; simpl; [lia|].
+    destruct (buf_is_space t && negb (is_lang t)); simpl; lia.
   Qed.
   Lemma mu_len a : (length a <= mu a)%nat.
   Proof. induction a as [|x a IH]; simpl; [lia|]. unfold wt. destruct (tk x); lia. Qed.
@@ -474,7 +478,7 @@ Section ExecArgs.
         rewrite Es. destruct (skip_space_bcl _ _ Hb) as (pre & _ & _ & _ & Hrest).
         apply IH.
         * rewrite Em1. constructor; [apply u_action; [left|]; reflexivity | exact Hrest].
-        * cbn [mu fold_right]. fold (mu (skip_space b)). pose proof (mu_skip b).
+        * cbn [mu fold_right]. fold (mu (skip_ctl b)). pose proof (mu_skip b).
           unfold wt in *. rewrite Hk in Hf. cbn [tk ActionT mk]. lia.
       + rewrite (step_comment T rd) by assumption. apply IH; [exact Hb|].
         unfold wt in Hf. rewrite Hk in Hf. lia.
